@@ -11,7 +11,7 @@ def main():
     ap.add_argument("--replay", default=None)
     a = ap.parse_args()
     if a.pid == "setup":
-        ok, out = lib.coq_make()
+        ok, out = lib.coq_make(strict=True)
         print(out[-3000:])
         sys.exit(0 if ok else 1)
     mod = importlib.import_module("harness." + a.pid.lower())
